@@ -240,6 +240,111 @@ func @F(n int) int {
 	return t
 }`, Drives: []Drive{fn("int", "@F", "3")}},
 
+	{Name: "LoopConditionReceiverWithEffects", Props: []string{"C02", "C07", "C13"}, Src: `
+// the condition of a loop calls a method on an iterator obtained through a call WITH EFFECTS: the receiver
+// expression is evaluated at every test, in source order - never once, early, as a method value
+type @P struct {
+	it    ITER(int)
+	calls int
+}
+func (p *@P) lexer() ITER(int) { p.calls++; vm.E("lexer", p.calls); return p.it }
+GEN(int) @Nat(n int) {
+	for i := 0; i < n; i++ { YIELD(i) }
+	RETURN
+}
+GEN(int) @Parse(p *@P, header bool) {
+	vm.E("begin")
+	if header { YIELD(-1) }
+	for p.lexer().MoveNext() {
+		vm.E("body")
+		YIELD(p.lexer().Current())
+	}
+	vm.E("end")
+	YIELD(p.calls)
+	RETURN
+}
+GEN(int) @Run(n int, header bool) {
+	p := &@P{it: GENCALL(int, @Nat, n)}
+	YIELDFROM(GENCALL(int, @Parse, p, header))
+	RETURN
+}`, Drives: []Drive{gen("int", "@Run", "3, true"), gen("int", "@Run", "2, false")}},
+
+	{Name: "ConsumerLoopBranchesInSwitch", Props: []string{"C06", "C01", "C11"}, Src: `
+// consumer loops INSIDE generator functions, with continue / break inside a switch, a type switch and an if:
+// the loop is a native loop (its body does not yield), continue continues it, break leaves the switch only
+GEN(int) @Nat(n int) {
+	for i := 1; i <= n; i++ { vm.E("produce", i); YIELD(i) }
+	RETURN
+}
+GEN(int) @SumEven(n int) {
+	s := 0
+	RANGEITER(v, :=, GENCALL(int, @Nat, n)) {
+		switch {
+		case v%2 == 1:
+			continue
+		case v == 4:
+			break
+		}
+		s += v
+	}
+	YIELD(s)
+	RETURN
+}
+GEN(int) @Nested(n int) {
+	for k := 1; k <= n; k++ {
+		s := 0
+		RANGEITER(v, :=, GENCALL(int, @Nat, k)) {
+			var x any = v
+			switch x.(type) {
+			case int:
+				if v%2 == 1 { continue }
+			}
+			s += v
+		}
+		YIELD(s)
+	}
+	RETURN
+}
+GEN(int) @Plain(xs []int) {
+	t := 0
+	for _, v := range xs {
+		switch v {
+		case 0:
+			continue
+		case 9:
+			break
+		default:
+			t += v
+		}
+		t++
+	}
+	YIELD(t)
+	RETURN
+}`, Drives: []Drive{gen("int", "@SumEven", "6"), gen("int", "@Nested", "4"), gen("int", "@Plain", "[]int{1, 0, 9, 2}")}},
+
+	{Name: "ReturnOperandPanics", Props: []string{"C18", "C01"}, Src: `
+// "return e" in a generator evaluates e (the value is ignored): a panic of that evaluation - an index out of
+// range, a nil dereference, a division by zero; no call involved - surfaces from the advance that runs it
+type @H struct{ It ITER(int) }
+GEN(int) @Pick(its []ITER(int), i int) {
+	YIELD(1)
+	if i >= 0 { RETURNX(its[i]) }
+	YIELD(2)
+	RETURN
+}
+GEN(int) @Deref(h *@H) {
+	YIELD(1)
+	RETURNX(h.It)
+}
+GEN(int) @Div(its []ITER(int), d int) {
+	YIELD(1)
+	for i := 0; i < 2; i++ {
+		YIELD(10 + i)
+		if i == 1 { RETURNX(its[10/d]) }
+	}
+	RETURN
+}`, Drives: []Drive{gen("int", "@Pick", "nil, 3"), gen("int", "@Pick", "nil, -1"), gen("int", "@Deref", "nil"), gen("int", "@Div", "nil, 0")}},
+
 	{Name: "RangeBodyRedeclares", Props: []string{"C04", "C03"}, Src: `
 // the body of a range statement is its own block: it may redeclare the range variables, and closures made
 // before the redeclaration keep seeing the range variables
